@@ -18,7 +18,7 @@ from ..core import Violation
 ID = "C04"
 LEVEL = "exploration"
 RULE = (
-    "Hypothesis-generated (configuration, history) pairs: configuration = flush_on_insert x encoding {None, utf-8, utf-16, latin-1} x 9 csv dialect option sets x auto_index x access_mode {r+, w+}; history = inserts "
+    "Hypothesis-generated (configuration, history) pairs: configuration = flush_on_insert x encoding {None, utf-8, utf-16, latin-1} x 11 csv dialect option sets (incl. named dialects) x auto_index x access_mode {r+, w+}; history = inserts "
     "(compact or default prefixes per insert), insert_multiple, update, remove, drop_measurement, remove_all, reindex, reopen, and probes whose get/contains stop reading early; string pool with "
     "delimiters, quotes, CR, LF, CRLF, tabs, non-ASCII (restricted to what the encoding can encode) and occasional > 8 KiB values. After each operation the file is decoded independently and by a fresh "
     "read-only instance and compared with the model. Non-trivial = history with >= 1 rewrite (update/remove that changed something) under a non-default configuration, or an insert after an "
@@ -39,9 +39,11 @@ DIALECTS = {
     "quote_nonnumeric": {"quoting": csv.QUOTE_NONNUMERIC},
     "escapechar": {"doublequote": False, "escapechar": "\\"},
     "lf_terminator": {"lineterminator": "\n"},
+    "named_unix": {"dialect": "unix"},
+    "named_excel_tab": {"dialect": "excel-tab"},
 }
 ENCODINGS = [None, "utf-8", "utf-16", "latin-1"]
-STRINGS = ["x", "x", "y", "a,b", 'q"q', "x\ny", "x\r\ny", "x\ry", "é", "ü;ö", "a;b", "a\tb", "a|b", "it's", "back\\slash", " lead", "trail ", "", "日本", "‑dash", "x" * 9000]
+STRINGS = ["x", "x", "y", "a,b", 'q"q', "x\ny", "x\r\ny", "x\ry", "é", "ü;ö", "a;b", "a\tb", "a|b", "it's", "back\\slash", " lead", "trail ", "", "日本", "‑dash", "x" * 9000, "a\x0bb", "a\x0cb\x1c", "a\x85b", "a\u2028b\u2029"]
 LATIN1 = [s for s in STRINGS if all(ord(c) < 256 for c in s)]
 
 
